@@ -368,6 +368,30 @@ func (s *MonStore) EncodeDecode(target gen.StoreSpec, name string) *MonStore {
 	return t
 }
 
+// EncodeInto encodes s and decodes the bytes into the existing store t (decode-into-non-empty == merge).
+func (s *MonStore) EncodeInto(t *MonStore) {
+	s.C.Logf("%s.DecodeAndMergeWith(%s.Encode())  [%s <- %s]", t.Name, s.Name, t.Spec, s.Spec)
+	var b []byte
+	s.around("Encode", true, func() { s.St.Encode(&b, enc.FlagTypePositiveStore) })
+	t.around("DecodeInto", false, func() {
+		rest := b
+		for len(rest) > 0 {
+			flag, err := enc.DecodeFlag(&rest)
+			if err != nil {
+				s.C.Failf("store.decode.flag", "DecodeFlag: %v", err)
+				return
+			}
+			if err := t.St.DecodeAndMergeWith(&rest, flag.SubFlag()); err != nil {
+				s.C.Failf("store.decode.error:"+t.Spec.KindName(), "DecodeAndMergeWith into a non-empty store: %v", err)
+				return
+			}
+			s.C.Count("decode.blocks", 1)
+		}
+	})
+	t.M.Merge(s.M)
+	s.C.Count("decode_into."+t.Spec.KindName()+"<-"+s.Spec.KindName(), 1)
+}
+
 // ProtoInto converts s to its protobuf message and merges it into a fresh store of spec target.
 func (s *MonStore) ProtoInto(target gen.StoreSpec, name string) *MonStore {
 	s.C.Logf("%s := MergeWithProto(new %s, %s.ToProto())", name, target, s.Name)
